@@ -9,7 +9,31 @@ VERIF = os.path.dirname(os.path.dirname(os.path.abspath(__file__)))
 TECH = "deterministic simulation with fault injection: seeded schedule/fault search over the real code on a simulated OS (vsim)"
 
 # id -> (built?, category, level text, level_note, design_ref, technique detail)
+GW_NOTE = ("Trusted: the simulated OS (vsim: pipes with BufferedWriter semantics, sockets with partial sends, process table, "
+           "signals, discrete-event clock) and the bootstrap stub (init_popen_io/get_execmodel substituted); schedules, faults "
+           "and programs are sampled, not enumerated; only public API results and bytes on the simulated wire are judged.")
+
+
+def gw(text, ref, tech_detail, note_extra=""):
+    return (True, "exploration", text, GW_NOTE + (" " + note_extra if note_extra else ""), ref, TECH + "; " + tech_detail)
+
+
 CHECKS = {
+    "C02": gw("Seeded schedule search over generated multi-channel, multi-sender/receiver programs on popen/bare/socket/proxied "
+              "gateways; delivered order (queue-pop / callback order) compared with the wire order decoded by an independent "
+              "frame parser: exactly once, in order, right channel, nothing lost at EOF, timed receives lose nothing.",
+              "DESIGN.md 3/C02", "history oracle vs. ground-truth wire log"),
+    "C03": gw("Seeded schedule search over close histories (explicit close / end of body / reference drop) with in-flight data, "
+              "1-3 blocked receivers, waitclose callers and endmarker callbacks; probes after each observation.",
+              "DESIGN.md 3/C03", "history oracle with scripted post-observation probes"),
+    "C07": gw("Seeded schedule search over failure positions of raising bodies / raising callbacks (channel alive or dropped) "
+              "with sibling traffic and a liveness probe; scripted expected outcomes per op.",
+              "DESIGN.md 3/C07", "scripted-expectation oracle",
+              "The dropped-channel sub-case is a listed known finding."),
+    "C08": gw("(a) real Message.to_io/from_io + BaseGateway._send over real Popen2IO/SocketIO on simulated pipes/sockets with "
+              "1-4 concurrent writers, every message code, full channel-id range, payloads to MiBs, all read chunkings; "
+              "(b) end-to-end multi-sender channel programs on every transport.",
+              "DESIGN.md 3/C08", "IO-class harness + end-to-end, independent stream parser"),
     "C09": (
         True, "exploration",
         "Seeded search over interleavings (sync points + <=3 line preemptions, uniform/sticky/PCT schedules) of "
@@ -21,6 +45,10 @@ CHECKS = {
         "DESIGN.md 3/C09",
         TECH + "; pool-only harness, history oracle",
     ),
+    "C14": gw("Seeded schedule search over histories of 1-5 remote_exec outcomes (return/raise/SystemExit/SIGINT/blocked) with "
+              "sequential and overlapping submission on main_thread_only workers: main-thread identity, one at a time, "
+              "submission order, documented deadlock error for overlaps only.",
+              "DESIGN.md 3/C14", "scripted-expectation oracle + body-span checks"),
 }
 
 NA = {
